@@ -181,7 +181,9 @@ def staticCodes : List String :=
   ["InvalidBucketName", "InvalidArgument", "InvalidRequest", "NotImplemented", "InvalidStorageClass",
    "IncompleteBody", "UnexpectedContent", "InvalidPart", "PANIC"]
 
-def dynCodes : List String := ["AccessDenied", "InternalError", "EntityTooSmall", "NoSuchKey", "NoSuchBucket"]
+/-- codes that depend on what is on disk (`InvalidPart`: a listed part file does not exist — it is also the input-determined
+    answer to a complete_multipart_upload without a part list) -/
+def dynCodes : List String := ["AccessDenied", "InternalError", "EntityTooSmall", "NoSuchKey", "NoSuchBucket", "InvalidPart"]
 
 def labelOfRel (labels : List (Bytes × FsPathSpec.Label)) (rel : Bytes) : FsPathSpec.Label :=
   match labels.find? (·.1 = rel) with
@@ -251,7 +253,7 @@ def judgeCase (outerB cwd : Bytes) (id : String) (i : Inp) (code : String) (chan
       let codeOk :=
         match pl.err with
         | some e => code = e.name || (!pl.touches.isEmpty && dynCodes.contains code)
-        | none => !staticCodes.contains code
+        | none => !staticCodes.contains code || dynCodes.contains code
       if !codeOk then disagree id (match pl.err with | some e => e.name | none => "no-input-error") code
       else
         let uncovered := changes.find? fun c =>
